@@ -185,6 +185,8 @@ def api_ops():
         "parseB": lambda sh: sh.xp.from_string('<B xmlns="urn:b"><child><v>2</v></child></B>', m.B),
         "parseXsi": lambda sh: sh.xp.from_string(
             f'<Base xmlns="urn:a" xmlns:xsi="{XSI}" xsi:type="Derived"><x>1</x><y>s</y></Base>', m.Base),
+        "parseXsiWrong": lambda sh: sh.xp.from_string(
+            f'<Other xmlns="urn:b" xmlns:a="urn:a" xmlns:xsi="{XSI}" xsi:type="a:Derived"><z>q</z></Other>', m.Other),
         "parseNoClass": lambda sh: _name_and_value(sh.xp.from_string('<Other xmlns="urn:b"><z>q</z></Other>')),
         "parseUnknown": lambda sh: sh.xp.from_string('<Unknown xmlns="urn:x"/>'),
         "parseBroken": lambda sh: sh.xp.from_string("<Broken/>", m.Broken),
